@@ -133,12 +133,15 @@ pub fn check(cfg: &Config, rec: &mut Rec) -> Result<Value, Fail> {
         return Err(Fail::new("build-error", format!("probe build failed: {}", m)));
     }
     let (live_half, peak) = (g("live_half"), g("peak_incl_finish"));
-    let allowed = live_half + live_half / 10 + 128 * 1024;
+    // the additive slack covers the slow saturation of Vec capacities in a large cache; tiny
+    // hook caches saturate at once, so slow leaks (a byte per 64 keys) must show there
+    let tiny = cfg.geom.map(|(r, c)| r * c <= 256).unwrap_or(false);
+    let allowed = live_half + live_half / 10 + if tiny { 8 * 1024 } else { 128 * 1024 };
     if peak > allowed {
         return Err(Fail::new(
             "heap-grows-with-n",
             format!(
-                "builder heap grows with the number of keys: live heap after {} keys was {} bytes, peak while inserting the next {} keys reached {} bytes (> 1.10 x + 128 KiB = {}); config {}",
+                "builder heap grows with the number of keys: live heap after {} keys was {} bytes, peak while inserting the next {} keys reached {} bytes (> 1.10 x + 8 KiB for caches of <= 256 cells, + 128 KiB otherwise = {}); config {}",
                 cfg.n / 2,
                 live_half,
                 cfg.n - cfg.n / 2,
@@ -163,7 +166,7 @@ pub fn check(cfg: &Config, rec: &mut Rec) -> Result<Value, Fail> {
 }
 
 pub fn run(e: &Engine) {
-    e.set_rule("cases are (N, fan-out F, key length L, set/map, cache geometry): key sequences with bounded fan-out and length and an unbounded number of distinct nodes (base-F counter prefix + hashed suffix) streamed to a discarding sink inside a single-threaded child process with a counting global allocator; live heap is sampled after N/2 keys and the peak is tracked from there to the end of finish(); violation iff peak > 1.10 * live(N/2) + 128 KiB; non-trivial = the eviction hook counted more than 10x the number of cache cells (the cache was forced to forget); distinct by configuration");
+    e.set_rule("cases are (N, fan-out F, key length L, set/map, cache geometry): key sequences with bounded fan-out and length and an unbounded number of distinct nodes (base-F counter prefix + hashed suffix) streamed to a discarding sink inside a single-threaded child process with a counting global allocator; live heap is sampled after N/2 keys and the peak is tracked from there to the end of finish(); violation iff peak > 1.10 * live(N/2) + 128 KiB (+ 8 KiB only, for caches of <= 256 cells); non-trivial = the eviction hook counted more than 10x the number of cache cells (the cache was forced to forget); distinct by configuration");
     e.assume("an asymptotic claim checked at finitely many N; growth slower than 5% per doubling would pass");
     let n: u64 = e.tier.pick(1_500_000, 4_000_000);
     let mut cfgs = vec![];
@@ -172,6 +175,13 @@ pub fn run(e: &Engine) {
             cfgs.push(Config { n, fanout, keylen, kind: 1 + ((i + j) % 2) as u8, values: if (i + j) % 2 == 0 { 0 } else { 2 }, geom, seed: crate::engine::mix(e.seed, (i * 3 + j) as u64) });
         }
     }
+    // long keys, wide nodes, decreasing values
+    cfgs.push(Config { n: n / 8, fanout: 3, keylen: 250, kind: 1, values: 3, geom: Some((64, 2)), seed: crate::engine::mix(e.seed, 60) });
+    cfgs.push(Config { n: n / 2, fanout: 40, keylen: 12, kind: 1, values: 2, geom: Some((64, 2)), seed: crate::engine::mix(e.seed, 61) });
+    // (no wide-node configuration under the default geometry: 20 000 cells x 40-transition buffers
+    // saturate only after several million keys, so "live at N/2" would not be the plateau — a first
+    // version of this check raised exactly that false alarm on the unchanged tree)
+    cfgs.push(Config { n: n / 2, fanout: 40, keylen: 12, kind: 2, values: 0, geom: Some((1000, 2)), seed: crate::engine::mix(e.seed, 62) });
     // keys that are proper prefixes of their successors (k, k+x): leaf nodes that later gain a transition
     for (j, geom) in [Some((64usize, 2usize)), None].into_iter().enumerate() {
         cfgs.push(Config { n: n / 2, fanout: 4, keylen: 20, kind: 3, values: if j == 0 { 0 } else { 2 }, geom, seed: crate::engine::mix(e.seed, 50 + j as u64) });
